@@ -54,7 +54,7 @@ def main():
                         break
         for c in checks:
             t0 = time.time()
-            rc, out = sh(f"./check {c} --tier quick", cwd=ROOT, env=dict(ENV, QIB_REPO=str(wt)), timeout=3600)
+            rc, out = sh(f"./check {c} --tier quick", cwd=ROOT, env=dict(ENV, QIB_REPO=str(wt), **({} if c == checks[0] else {"VERIF_NO_DEEPEN": "1"})), timeout=3600)
             v = [l for l in out.splitlines() if l.startswith("VIOLATION")]
             rp = None
             if v:
